@@ -1,5 +1,5 @@
 \* negative job: this mutant of the model must be rejected by GensymFresh (anti-vacuity)
-CONSTANTS MaxDepth = 1  SharedEnv = TRUE  NoEnv = FALSE  QualSpecial = FALSE
+CONSTANTS MaxDepth = 1  SharedEnv = TRUE  NoEnv = FALSE  QualSpecial = FALSE  NestShares = FALSE
 SPECIFICATION Spec
 INVARIANT GensymFresh
 CHECK_DEADLOCK FALSE
